@@ -2,20 +2,32 @@ EXPECTED_WIRING = [
     "ro.outFilter.InsertCmdBlackList(filter.NoRouteCmds, true)",
     "ro.outFilter.InsertCmdBlackList(cfg.Filter.CmdBlacklist, true)",
     "ro.outFilter.InsertPrefixKeyBlackList([]string{config.CheckpointKey, config.NamespacePrefixKey})",
-    "ro.outFilter.InsertPrefixKeyBlackList(keyFilter.PrefixKeyBlacklist)",
-    "ro.outFilter.InsertPrefixKeyWhiteList(keyFilter.PrefixKeyWhitelist)",
-    "ro.outFilter.InsertSlotWhiteList(slotFilter.KeySlotWhitelist)",
-    "ro.outFilter.InsertSlotBlackList(slotFilter.KeySlotBlacklist)",
-    "ro.outFilter.InsertDbBlackList(dbBlackList)",
+    "ro.outFilter.InsertPrefixKeyBlackList(keyFilter.PrefixKeyBlacklist) [if keyFilter != nil]",
+    "ro.outFilter.InsertPrefixKeyWhiteList(keyFilter.PrefixKeyWhitelist) [if keyFilter != nil]",
+    "ro.outFilter.InsertSlotWhiteList(slotFilter.KeySlotWhitelist) [if slotFilter != nil]",
+    "ro.outFilter.InsertSlotBlackList(slotFilter.KeySlotBlacklist) [if slotFilter != nil]",
+    "ro.outFilter.InsertDbBlackList(dbBlackList) [if len(dbBlackList) > 0]",
 ]
 
+# every place package syncer consults the filter: file:func: statement/condition [guards]
 EXPECTED_USES = [
-    "parseAofCommand:FilterCmd",
-    "parseAofCommand:FilterCmdKey",
-    "parseAofCommand:FilterDb",
-    "rdbReplay:FilterDb",
-    "rdbReplay:FilterKey",
-    "rdbReplay:FilterSlot",
+    "bisync.go:parseAofReplayUnits: bypass = ro.outFilter.FilterDb(n) [in strings.EqualFold(sCmd, \"select\") ; sCmd != \"ping\"]",
+    "bisync.go:parseAofReplayUnits: if ro.outFilter.FilterCmd(sCmd) [in !(strings.EqualFold(sCmd, \"select\")) ; sCmd != \"ping\"]",
+    "bisync.go:parseAofReplayUnits: newArgv, reject := ro.outFilter.FilterCmdKey(sCmd, argv)",
+    "bisync_rdb.go:rdbReplayBisync: if ro.outFilter.FilterDb(int(e.DB))",
+    "bisync_rdb.go:rdbReplayBisync: if ro.outFilter.FilterKey(string(e.Key)) || ro.outFilter.FilterSlot(string(e.Key)) [in !(ro.outFilter.FilterDb(int(e.DB)))]",
+    "bisync_rdb.go:rdbReplayBisync: if ro.outFilter.FilterKey(string(e.Key)) || ro.outFilter.FilterSlot(string(e.Key)) [in !(ro.outFilter.FilterDb(int(e.DB)))]",
+    "output.go:parseAofCommand: bypass = ro.outFilter.FilterDb(n) [in strings.EqualFold(sCmd, \"select\") ; sCmd != \"ping\"]",
+    "output.go:parseAofCommand: if ro.outFilter.FilterCmd(sCmd) [in !(strings.EqualFold(sCmd, \"select\")) ; sCmd != \"ping\"]",
+    "output.go:parseAofCommand: newArgv, reject = ro.outFilter.FilterCmdKey(sCmd, argv)",
+    "output.go:rdbReplay: if ro.outFilter.FilterDb(int(e.DB))",
+    "output.go:rdbReplay: if ro.outFilter.FilterKey(util.BytesToString(e.Key)) || ro.outFilter.FilterSlot(util.BytesToString(e.Key)) [in !(ro.outFilter.FilterDb(int(e.DB)))]",
+    "output.go:rdbReplay: if ro.outFilter.FilterKey(util.BytesToString(e.Key)) || ro.outFilter.FilterSlot(util.BytesToString(e.Key)) [in !(ro.outFilter.FilterDb(int(e.DB)))]",
+]
+
+EXPECTED_HANDOFF = [
+    "syncer/syncer.go: Filter: config.GetSyncerConfig().Output.Filter",
+    "cmd/rdb.go: Filter: cfg.Filter",
 ]
 
 # the two keyspec tables as reviewed (name:first,last,step / name:extractor); an edited, added or removed
@@ -59,6 +71,12 @@ PROP = {
         "GunYu.Props.C10.prefixMatch_iff",
         "GunYu.Props.C10.filterKey_iff",
         "GunYu.Props.C10.filterCmdKey_spec",
+        "GunYu.Props.C10.forwarded_keys_accepted",
+        "GunYu.Props.C10.forwarded_keys_not_reserved",
+        "GunYu.Props.C10.rdbKeep_iff",
+        "GunYu.Props.C10.no_forward_in_listed_db",
+        "GunYu.Props.C10.parse_forward_iff",
+        "GunYu.Props.C10.configFix_preserves",
         "GunYu.Props.C10.bookkeeping_never_forwarded",
         "GunYu.Props.C10.cmd_blacklist_iff",
         "GunYu.Props.C10.db_iff",
@@ -66,6 +84,8 @@ PROP = {
     "expected_facts": {
         "output_filter_wiring": EXPECTED_WIRING,
         "output_filter_uses": EXPECTED_USES,
+        "output_filter_handoff": EXPECTED_HANDOFF,
+        "config_filter_writes": [],
         "keyspec_numkeysExtractor_body": "{ return numkeysStepExtractor(numkeysIdx, firstKeyIdx, 1, fixedKeys...) }",
         "keyspec_partial_projection": ["mset", "del", "unlink"],
         "keyspec_position_rows": EXPECTED_POSITION_ROWS,
@@ -79,6 +99,7 @@ PROP = {
     "harness": [
         {"name": "C10", "pkg": "./pkg/filter/", "test": "TestVerifC10"},
         {"name": "C10out", "pkg": "./syncer/", "test": "TestVerifC10"},
+        {"name": "C10cfg", "pkg": "./config/", "test": "TestVerifC10"},
     ],
     "driver": "drv_C10",
     "rule": "generated (configuration, input) pairs, corpus first. Configurations: 0-6 slot-range entries per list drawn to nest / enclose / overlap "
@@ -87,10 +108,16 @@ PROP = {
             "Inputs: keys steered onto and next to every range bound by inverting CRC16 on 2-byte hash tags, onto / one byte short of / one byte off each "
             "prefix, reserved bookkeeping keys and near misses, brace arrangements, random bytes; a sweep of every slot 0..16383 (step 7 in quick) against "
             "adversarial range sets; commands from both regenerated keyspec tables in random case with arity below/at/above the row, extractor commands in "
-            "documented and broken shapes (numkeys 0/too large/non-numeric/leading zeros/up to 19 digits incl. 2^63-1, dangling STORE/BY/GET, STREAMS with odd tails), 43 well-formed commands with key positions from the Redis command reference (golden), "
-            "unknown and non-ASCII command names. Each pair is evaluated by the real RedisKeyFilter (bare, and as wired by NewRedisOutput incl. the parser "
-            "loop parseAofCommand on generated command streams with SELECT / PING / sentinel hello / blacklisted names) and compared with the Lean model line by line and with an independent Go oracle (linear union of ranges, bytes.HasPrefix, "
-            "bitwise CRC16). distinct_nontrivial = distinct (config, key) with >1 rule of a kind and (config, command) whose outcome is reject/projection",
+            "documented and broken shapes (numkeys 0/too large/non-numeric/leading zeros/up to 19 digits incl. 2^63-1, dangling STORE/BY/GET, STREAMS with odd "
+            "tails), 43 well-formed commands with key positions from the Redis command reference (golden), unknown and non-ASCII command names. "
+            "Real code run: RedisKeyFilter bare (session C10); as wired by NewRedisOutput (C10out) - Filter* directly, the parser loop parseAofCommand on "
+            "command streams (SELECT of listed/unlisted dbs, MULTI/EXEC around a switch, PING, sentinel hello, blacklisted names; TargetDb, TargetDbMap and "
+            "startDbId drawn in half of the streams), the bisync parser parseAofReplayUnits (standalone mode) on streams of table-resolved commands with "
+            "balanced and stray MULTI/EXEC, and the two snapshot worker loops rdbReplay / rdbReplayBisync fed by the real rdb.Loader from generated "
+            "string-key snapshots against the target double (outcome = key present in the target); config.(*SyncConfig).fix on standalone/cluster x "
+            "TargetDb x resume x filter (C10cfg). Every outcome is compared with the Lean model line by line and with an independent Go oracle (linear union "
+            "of ranges, bytes.HasPrefix, bitwise CRC16, rule predicates per command). distinct_nontrivial = distinct (config, key) with >1 rule of a kind, "
+            "(config, command) whose outcome is reject/projection, non-empty parser outputs, snapshot entries, preserved db lists",
     "trusted": [
         "Redis Cluster HASH_SLOT as transcribed in Model/Slot.lean (proved equal to the model of redis.KeyToSlot in C11)",
         "sort.Search on a list sorted by Left finds the first greater Left (insertSorted is its linear transcription); Go map[byte] as a function UInt8 -> Option",
@@ -98,9 +125,18 @@ PROP = {
     "assumptions": [
         "command names and option words are ASCII (Go folds case with Unicode rules: Kelvin sign, long s; the model folds ASCII only); configured command names are ASCII",
         "numkeys arguments are below 2^63 (parseCommandInt accumulates in an int64 and wraps beyond; a Redis source rejects such counts before propagation)",
-        "hand-written model functions (range list, trie, extractor bodies, FilterCmdKey, parser filter step) are tied by correspondence; the two keyspec tables, "
-        "the partial-projection list, NoRouteCmds and the reserved prefixes are regenerated from source on every run",
-        "the set of filter call sites in syncer/output.go and the Insert* wiring of NewRedisOutput are compared with the expected lists",
+        "hand-written model functions (range list, trie, extractor bodies, FilterCmdKey, rdbKeep, configFix) are tied by correspondence; the parser loop is the C01 model "
+        "Sender.parseStep instantiated with the concrete filter (pcfgOf) and the bisync parser is the C13 model Bisync.parse, both tied here under generated filter configurations; "
+        "the two keyspec tables, the partial-projection list, NoRouteCmds and the reserved prefixes are regenerated from source on every run",
+        "every statement of package syncer that consults the filter (file, function, printed condition and guards), the Insert* wiring of NewRedisOutput with its guards, the two "
+        "places the configured filter is handed to NewRedisOutput and the absence of any write to the filter section in config/config.go are compared with expected lists",
+        "boundary of the rule: a command whose key positions the regenerated table does not resolve passes with all its arguments (EVAL/FCALL with numkeys 0, SORT without STORE, "
+        "module commands absent from the table, source keys of CMS.MERGE/TDIGEST.MERGE); the property's quantifier is the table's command set, its agreement with the Redis "
+        "command reference is checked on 43 golden commands only (no vendored command list is available offline)",
+        "SELECT is never subject to the command blacklist (branch order of the parser); PUBLISH always carries a channel (parseAofCommand indexes argv[0] without a length check)",
+        "a run resumes (startDbId) where the source database is not listed: bypass starts false (C02's invariant keeps the resume position out of bypassed regions; a blacklist "
+        "edited between runs takes effect at the next SELECT)",
+        "snapshot path: observed on string values with replayRdbEnableRestore=false, keyExists=replace, one worker; the decision does not depend on the value type (C03/C20 cover the replay itself)",
     ],
     "partial": [],
 }
@@ -108,10 +144,14 @@ PROP = {
 MANIFEST = {
     "text": "Lean theorems over ALL configurations and inputs: range-list lookup after any sequence of inserts (any number/order/overlap/nesting) holds exactly on the "
             "union of the valid ranges; slot rule = black or (white configured and not white) on HASH_SLOT of the key (via C11); the byte-indexed trie matches exactly "
-            "when a non-empty configured prefix is a byte prefix; FilterCmdKey forwards unchanged / projects DEL, UNLINK to the accepted keys and MSET to the accepted "
-            "pairs / withholds, per the regenerated key-position tables; keys under the tool's two reserved prefixes are rejected under every configuration; command "
-            "blacklist is case-folded membership; db rule is membership except -1. Model tied to pkg/filter, pkg/redis/keyspec and NewRedisOutput/parseAofCommand by "
-            "differential correspondence plus an independent Go oracle.",
-    "note": "trusted: Lean kernel (propext, Classical.choice, Quot.sound only), HASH_SLOT transcription, extractor, harness; ASCII command words; tables regenerated, logic by correspondence",
-    "technique": "Lean 4 proof (induction over insert sequences / words / key lists, sortedness invariant) + regenerated tables + differential correspondence + independent oracle",
+            "when a non-empty configured prefix is a byte prefix; whatever FilterCmdKey forwards of a table-resolved command has all its key positions accepted, the "
+            "forwarded keys are exactly the accepted keys in order (DEL/UNLINK: the key list; MSET: each with its own value), otherwise it is withheld; no key position "
+            "of a forwarded command and no replayed snapshot key carries a reserved prefix, under every configuration; snapshot entries are replayed iff db, prefix and slot "
+            "rules accept; over any command stream nothing of a listed database is handed to the sender between its SELECT and the next one except transaction "
+            "brackets (MULTI/EXEC, absorbed by the sender, carrying the offset handed over before the region); command blacklist is case-folded membership; config fix preserves the filter. Model tied to pkg/filter, "
+            "pkg/redis/keyspec, NewRedisOutput, parseAofCommand, parseAofReplayUnits, rdbReplay, rdbReplayBisync and SyncConfig.fix by differential correspondence plus an "
+            "independent Go oracle.",
+    "note": "trusted: Lean kernel (propext, Classical.choice, Quot.sound only), HASH_SLOT transcription, extractor, harness and doubles; ASCII command words; tables regenerated, logic by correspondence; "
+            "commands outside the key table pass unfiltered (boundary named in assumptions)",
+    "technique": "Lean 4 proof (induction over insert sequences / words / key lists / command streams, sortedness invariant) + regenerated tables + differential correspondence + independent oracle",
 }
